@@ -186,6 +186,12 @@ def check_opcode(I, opc, props, pr, profile='dev'):
                 pr.out['obligations'] += 1
                 if writes: cand(f'interp/{name}/misaligned-writes', 'memory written on an Err path', None, path=p)
                 else: pr.out['discharged'] += 1
+            if 'C08' in props and k == 'call':
+                pr.out['obligations'] += 1
+                if any(e[0] == 'hcall' for e in Q.events): cand(f'interp/{name}/error-after-helper-ran', 'a helper was invoked on a path that returns an error', None, path=p)
+                else: pr.out['discharged'] += 1
+                r, m = pr.prove(f'{name}:unregistered-id-is-an-error', pc_, Or(And(P.src == 0, Not(P.registered(P.imm))), And(P.src == 1, UGE(P.sfi, 8))), sample='call: Err exactly for an unregistered id (src 0) or depth 8 (src 1); nothing is executed')
+                if r == 'sat': cand(f'interp/{name}/unexpected-error', 'error on a registered helper / shallow local call', m, path=p)
             continue
         if p.kind != 'cut': raise mirsym.Unsupported('path kind ' + p.kind)
         npaths['cut'] += 1
@@ -238,6 +244,30 @@ def check_opcode(I, opc, props, pr, profile='dev'):
             if k == 'call':
                 r, m = pr.prove(f'{name}:local-call-needs-depth<8', pc_, Or(P.src != 1, ULT(P.sfi, 8)), sample='call: a local call continues only at depth < 8 (deeper nesting is an error)')
                 if r == 'sat': cand(f'interp/{name}/depth-not-checked', 'local call performed at depth 8', m, path=p)
+        if 'C08' in props and k == 'call':
+            hc = [e for e in Q.events if e[0] == 'hcall']
+            # helper call (src = 0): exactly one call, to the function registered under zext(imm), with (r1..r5)
+            r, m = pr.prove(f'{name}:helper-path-has-src0-or-no-call', pc_, Or(P.src == 0, BoolVal(len(hc) == 0)))
+            if r == 'sat': cand(f'interp/{name}/helper-called-for-local-call', 'a helper is invoked for a call with src != 0', m, path=p)
+            if hc:
+                pr.out['obligations'] += 1
+                if len(hc) != 1: cand(f'interp/{name}/helper-call-count', f'{len(hc)} helper invocations for one call instruction', None, path=p)
+                else:
+                    pr.out['discharged'] += 1
+                    key, args = hc[0][1], hc[0][2]
+                    r, m = pr.prove(f'{name}:helper-id', pc_, And(key == P.imm, P.registered(P.imm)), sample='call: the function invoked is the one registered under id = imm (any u32)')
+                    if r == 'sat': cand(f'interp/{name}/helper-id', 'helper looked up under another id / not registered', m, path=p)
+                    for j in range(5):
+                        r, m = pr.prove(f'{name}:helper-arg{j+1}', pc_, args[j] == P.regs[j + 1], sample='call: arguments are (r1, r2, r3, r4, r5) in that order' if j == 0 else None)
+                        if r == 'sat': cand(f'interp/{name}/helper-args', f'argument {j+1} is not r{j+1}', m, path=p)
+                    r, m = pr.prove(f'{name}:helper-result-in-r0', pc_, Q.regs[0] == P.hcall(P.helper(P.imm), *P.regs[1:6]))
+                    if r == 'sat': cand(f'interp/{name}/helper-result', 'r0 is not the helper\'s return value', m, path=p)
+                    for j in range(6, 11):
+                        r, m = pr.prove(f'{name}:helper-preserves-r{j}', pc_, Q.regs[j] == P.regs[j])
+                        if r == 'sat': cand(f'interp/{name}/helper-clobbers-callee-saved', f'r{j} changed across a helper call', m, path=p)
+            else:
+                r, m = pr.prove(f'{name}:continuing-src0-path-calls-helper', pc_, P.src != 0)
+                if r == 'sat': cand(f'interp/{name}/helper-not-called', 'helper call continues without invoking the helper', m, path=p)
         if 'C18' in props and k == 'xadd':
             n = info['size']; addr = O.access[0]
             ev = [e for e in Q.events if e[0] == 'atomic_rmw']
